@@ -447,17 +447,37 @@ def _protocol(r, p, fi):
 
 
 def _order(r, p, cg, apply_rules, wb, backups):
+    # an "extract function" refactoring may move the fix / write-back block into a helper of the same module: the
+    # ordering facts are decided on apply_rules with such helpers inlined
+    from ..model import inline_helpers
+
+    apply_rules = inline_helpers(p, apply_rules, toward={wb.name} | {b.name for b in backups})
     fn = apply_rules.node
     facts = Facts(fn)
     K = apply_rules.key
-    wcalls = []
-    for s in cg.sites[apply_rules.key]:
-        if wb in s.targets and s.kind == "resolved":
-            wcalls.append(s.node)
+
+    def _calls_of(target):
+        out = []
+        for n in walk_function(fn):
+            if isinstance(n, ast.Call) and isinstance(n.func, (ast.Name, ast.Attribute)):
+                ent = p.resolve_expr(apply_rules.module, n.func)
+                if ent and ent[0] == "func" and ent[1] is target:
+                    out.append(n)
+        return out
+
+    order = {}
+
+    def _pre(n):
+        order[id(n)] = len(order)
+        for c in ast.iter_child_nodes(n):
+            _pre(c)
+
+    _pre(fn)
+    wcalls = _calls_of(wb)
     # all call sites of the write-back function in the whole program
     all_sites = [(k, s) for k, ss in cg.sites.items() for s in ss if s.kind == "resolved" and wb in s.targets]
     for k, s in all_sites:
-        if k != apply_rules.key:
+        if k != apply_rules.key and k not in apply_rules.inlined:
             r.fail("C16.order", "%s:calls-writeback" % k, "write-back called from outside apply_rules (unguarded by parse/configure/fix ordering)", p.functions[k].loc(s.node))
     if not wcalls:
         raise AnalysisError("apply_rules no longer calls the write-back function %s" % wb.key)
@@ -502,9 +522,13 @@ def _order(r, p, cg, apply_rules, wb, backups):
     if n_h < 2:
         raise AnalysisError("apply_rules no longer has ClassifyError/ConfigurationError handlers (found %d)" % n_h)
     # backup ordering
+    class _S:
+        def __init__(self, node):
+            self.node = node
+
     for b in backups:
-        for s in cg.sites[apply_rules.key]:
-            if b in s.targets and s.kind == "resolved":
+        for s in [_S(n) for n in _calls_of(b)]:
+            if True:
                 fb = facts.facts_at(s.node)
                 kk = K + ":backup"
                 okb = True
@@ -515,7 +539,7 @@ def _order(r, p, cg, apply_rules, wb, backups):
                     r.fail("C16.order", kk + ":after-fix", "backup taken after fixing", apply_rules.loc(s.node))
                 # the fix call must come later in the same or an enclosing block
                 fixes = [c for c in walk_function(fn) if isinstance(c, ast.Call) and callee_text(c) == "oRules.fix"]
-                if not fixes or any(c.lineno < s.node.lineno for c in fixes):
+                if not fixes or any(order[id(c)] < order[id(s.node)] for c in fixes):
                     okb = False
                     r.fail("C16.order", kk + ":before-fix", "backup does not precede oRules.fix", apply_rules.loc(s.node))
                 if ("call", ctor) not in fb:
